@@ -10,3 +10,13 @@ pub mod stubs;
 mod c02;
 #[cfg(all(kani, feature = "c01"))]
 mod c01;
+#[cfg(all(kani, feature = "c03"))]
+mod c03;
+#[cfg(all(kani, feature = "c12"))]
+mod c12;
+#[cfg(all(kani, feature = "c17"))]
+mod c17;
+#[cfg(all(kani, feature = "c31"))]
+mod c31;
+#[cfg(all(kani, feature = "c13"))]
+mod c13;
